@@ -99,6 +99,9 @@ def replay(ctx, rep):
     if not lines:
         print("replay file names no failing input:", rep.get("no_longer_checks"))
         return 1
+    if lines[0].startswith("conns"):
+        from . import c18
+        return c18.replay(ctx, rep)
     if lines[0].startswith("rcfg"):   # a housekeeping-runner history
         from . import c18
         with common.Lock():
